@@ -98,6 +98,8 @@ inductive Stmt
   | alias (dst : Var) (src : CExpr)            -- `dst := cat.Namespaces[h]` (NO Clone) / `dst := v`
   | newColl (dst : Var)                        -- `dst = mongokit.NewCollection(true)`
   | cloneColl (dst : Var) (src : CExpr)        -- `dst := src.Clone()`: fresh Set, fresh Index clones, shared docs
+  | shallowColl (dst : Var) (src : CExpr)      -- a WRONG Clone: fresh struct, SAME Set and indexes (never
+                                               -- emitted by the extractor; used by the negative theorems)
   | setNs (cat : Var) (h : HExpr) (v : Var)    -- `cat.Namespaces[h] = v`: IN PLACE on the map object of `cat`
   | setNsNew (cat : Var) (h : HExpr)           -- `cat.Namespaces[h] = mongokit.NewCollection(true)`
   | deleteNs (cat : Var) (h : HExpr)           -- `delete(cat.Namespaces, h)`: in place
@@ -130,6 +132,7 @@ def Stmt.beq : Stmt → Stmt → Bool
   | .alias d s, .alias d' s' => d == d' && s == s'
   | .newColl d, .newColl d' => d == d'
   | .cloneColl d s, .cloneColl d' s' => d == d' && s == s'
+  | .shallowColl d s, .shallowColl d' s' => d == d' && s == s'
   | .setNs c h v, .setNs c' h' v' => c == c' && h == h' && v == v'
   | .setNsNew c h, .setNsNew c' h' => c == c' && h == h'
   | .deleteNs c h, .deleteNs c' h' => c == c' && h == h'
@@ -160,6 +163,7 @@ theorem Stmt.beq_eq : ∀ (a b : Stmt), Stmt.beq a b = true → a = b
   | .alias .., b => by cases b <;> simp [Stmt.beq]
   | .newColl .., b => by cases b <;> simp [Stmt.beq]
   | .cloneColl .., b => by cases b <;> simp [Stmt.beq]
+  | .shallowColl .., b => by cases b <;> simp [Stmt.beq]
   | .setNs .., b => by cases b <;> simp [Stmt.beq]; (try exact fun a b c => ⟨a, b, c⟩)
   | .setNsNew .., b => by cases b <;> simp [Stmt.beq]
   | .deleteNs .., b => by cases b <;> simp [Stmt.beq]
@@ -191,7 +195,8 @@ end
 mutual
 theorem Stmt.beq_refl : ∀ (a : Stmt), Stmt.beq a a = true
   | .validate | .setDirty | .retErr | .retOk | .fail | .brk | .cont => by simp [Stmt.beq]
-  | .cloneDocs .. | .cloneCatalog .. | .alias .. | .newColl .. | .cloneColl .. | .setNs .. | .setNsNew ..
+  | .cloneDocs .. | .cloneCatalog .. | .alias .. | .newColl .. | .cloneColl .. | .shallowColl .. | .setNs ..
+  | .setNsNew ..
   | .deleteNs .. | .callColl .. | .setCatalog .. | .unknown .. => by simp [Stmt.beq]
   | .ite c t e => by simp [Stmt.beq, Stmt.beqL_refl t, Stmt.beqL_refl e]
   | .loop o l => by simp [Stmt.beq, Stmt.beqL_refl l]
@@ -446,9 +451,19 @@ def exec : Stmt → St → St × Sig
       let (h, o) := cloneCollH st.heap s idxs
       (({ st with heap := h }).bind dst (some o), .next)
     | _ => (st, .panic)                                      -- nil dereference
+  | .shallowColl dst e, st =>
+    match (st.evalC e).bind fun o => st.heap.get o with
+    | some (.coll s idxs) =>
+      let (h, o) := st.heap.alloc (.coll s idxs)
+      (({ st with heap := h }).bind dst (some o), .next)
+    | _ => (st, .panic)
   | .setNs c hx v, st =>
     match st.obj c, st.var v with
-    | some (o, .cat ns), some x => ({ st with heap := st.heap.write o (.cat (mapPut ns (st.hval hx) x)) }, .next)
+    | some (o, .cat ns), some x =>
+      -- (a variable only ever holds an allocated object; the test keeps the heap closed by construction)
+      if x < st.heap.size then
+        ({ st with heap := st.heap.write o (.cat (mapPut ns (st.hval hx) x)) }, .next)
+      else (st, .panic)
     | some (_, .cat _), none => (st, .next)
     | _, _ => (st, .panic)
   | .setNsNew c hx, st =>
@@ -467,7 +482,8 @@ def exec : Stmt → St → St × Sig
     | _ => (st, .panic)
   | .setCatalog v, st =>
     match st.var v with
-    | some o => ({ st with txn := { st.txn with catalog := o } }, .next)
+    | some o =>
+      if o < st.heap.size then ({ st with txn := { st.txn with catalog := o } }, .next) else (st, .panic)
     | none => (st, .panic)
   | .setDirty, st => ({ st with txn := { st.txn with dirty := true } }, .next)
   | .retErr, st => (st, .ret)
@@ -607,6 +623,7 @@ def check (strict : Bool) : Stmt → Abs → Res
   | .alias dst _, a => .step true (a.bindAlias dst)
   | .newColl dst, a => .step true (a.bindOwned dst)
   | .cloneColl dst _, a => .step true (a.bindOwned dst)
+  | .shallowColl dst _, a => .step true (a.bindAlias dst)
   | .setNs c _ v, a =>
     .step (a.ownsCat c)
       { a with tainted := if a.tainted.contains v then c :: a.tainted else a.tainted,
